@@ -144,6 +144,9 @@ static int visit_cb(void *obj, void *priv)
                 cstl_dlist_erase(vis_list, obj);
                 g_inlib = 0;
                 vis_removed[nvis] = 1;
+                /* once removed the element is the caller's: free it (poisoned) right here */
+                memset(obj, 0xDD, sizeof(struct lelem));
+                simheap_free(obj);
             }
         }
     }
@@ -546,7 +549,7 @@ static void l_exec(const plan_t *p)
                 for (j = 0; j < expect_n; j++) if (vis_removed[j]) rm[nrm++] = dir ? m->n - 1 - j : j;
                 /* sort descending */
                 for (i = 0; i < nrm; i++) for (j = i + 1; j < nrm; j++) if (rm[j] > rm[i]) { int t = rm[i]; rm[i] = rm[j]; rm[j] = t; }
-                for (i = 0; i < nrm; i++) { struct lelem *x = m_remove(m, rm[i]); drop_elem(x); removed++; }
+                for (i = 0; i < nrm; i++) { (void)m_remove(m, rm[i]); removed++; }   /* freed in the callback */
                 if (removed) PROBE_N("d_foreach_self_remove", removed);
             }
             vis_remove_pm = 0; vis_list = NULL;
